@@ -181,8 +181,42 @@ var prop = vh.Define("C04", "wellformed", func(c Case, r *vh.R) {
 func TestPropWellFormed(t *testing.T) {
 	prop.Rapid(t, func(t *rapid.T) Case {
 		s := bundlekit.GenWide(t)
-		return Case{Spec: *s, Sink: rapid.SampledFrom([]string{"buffer", "plain", "readerfrom", "counting-prewritten", "counting-prewritten-rf"}).Draw(t, "sink")}
+		c := Case{Spec: *s, Sink: rapid.SampledFrom([]string{"buffer", "plain", "readerfrom", "counting-prewritten", "counting-prewritten-rf"}).Draw(t, "sink")}
+		if rapid.IntRange(0, 4).Draw(t, "align") == 0 {
+			target := rapid.SampledFrom([]string{"responses", "responses", "index+responses", "file"}).Draw(t, "aligntarget")
+			mod := rapid.SampledFrom([]int{512, 4096, 32768, 32768, 65536}).Draw(t, "alignmod")
+			off := rapid.SampledFrom([]int{0, 0, 0, -1, 1}).Draw(t, "alignoff")
+			bundlekit.AlignTo(&c.Spec, target, mod, off)
+		}
+		return c
 	})
+}
+
+// TestAligned: the same calibration on fixed small bundles, for every target x modulus x {-1,0,+1}
+// x version, through every kind of destination.
+func TestAligned(t *testing.T) {
+	n := 0
+	for _, ver := range []string{"b1", "b2"} {
+		for _, target := range []string{"responses", "index+responses", "file"} {
+			for _, mod := range []int{512, 4096, 32768, 65536, 131072} {
+				for _, off := range []int{-1, 0, 1} {
+					s := bundlekit.Spec{Version: ver, Primary: "https://a.example/a", Exchanges: []bundlekit.ExSpec{
+						{URL: "https://a.example/a", Status: 200, Headers: []gen.HeaderKV{{Name: "Content-Type", Values: []string{"text/plain"}}}, BodyLen: 10, BodyTag: 1},
+						{URL: "https://a.example/b", Status: 404, Headers: []gen.HeaderKV{{Name: "Content-Type", Values: []string{"text/html"}}}, BodyLen: 3, BodyTag: 2}}}
+					if !bundlekit.AlignTo(&s, target, mod, off) {
+						t.Fatalf("c04: calibration did not converge for %s %s mod %d off %d", ver, target, mod, off)
+					}
+					for _, sink := range []string{"buffer", "plain", "readerfrom", "counting-prewritten"} {
+						n++
+						if !prop.One(t, Case{Spec: s, Sink: sink}) {
+							return
+						}
+					}
+				}
+			}
+		}
+	}
+	vh.Exhaustive("wellformed", fmt.Sprintf("aligned sizes: responses section / index+responses / whole file ending exactly at, one below and one above a multiple of 512, 4 KiB, 32 KiB, 64 KiB, 128 KiB, versions b1/b2, four kinds of destination: %d bundles", n))
 }
 
 // ---- CountingWriter model ------------------------------------------------------------------
